@@ -42,9 +42,11 @@ _cache = {}
 
 
 def gen_case(rng):
-    opts = kgen.Opts(unordered_pairs=0.3, p_part=rng.choice([0.1, 0.5, 0.8, 0.95]), id_pool=4, fancy_ids=True, max_rows=5, image_pool=5,
+    opts = kgen.Opts(dtype_instances=0.3, unordered_pairs=0.3, p_part=rng.choice([0.1, 0.5, 0.8, 0.95]), id_pool=4, fancy_ids=True, max_rows=5, image_pool=5,
                      partial_poses=True, nested_rigs=rng.random() < 0.3, odd_paths=True, histories=True)
-    return {'d': kgen.gen_dataset(rng, opts)}
+    # 'before': what the same process loaded just before this dataset (nothing; a legacy 1.0 directory; a directory holding
+    # observations and points but no keypoints, which the loader refuses): the round trip must not depend on it
+    return {'d': kgen.gen_dataset(rng, opts), 'before': rng.choice([None, None, None, '1.0', 'obs_only'])}
 
 
 def cases(rng, tier):
@@ -81,6 +83,7 @@ def run_real(case):
             res['files'] = read_tree(a_dir)
             res['rows'] = {p: [list(r) for r in table_from_file(io.StringIO(t, newline=None))] for p, t in res['files'].items()
                            if not p.endswith('points3d.txt')}
+            load_before(case.get('before'), base)
             k2 = kapture_from_dir(a_dir)
             res['reloaded'] = kgen.describe(k2)
             kapture_to_dir(b_dir, k2)
@@ -93,6 +96,29 @@ def run_real(case):
         shutil.rmtree(base, ignore_errors=True)
     _cache[k] = res
     return res
+
+
+def load_before(kind, base):
+    if not kind:
+        return
+    from kapture.io.csv import kapture_from_dir
+    other = os.path.join(base, 'other')
+    os.makedirs(os.path.join(other, 'sensors'))
+    version = '1.0' if kind == '1.0' else '1.1'
+    with open(os.path.join(other, 'sensors', 'sensors.txt'), 'w') as f:
+        f.write(f'# kapture format: {version}\n# sensor_id, name, sensor_type, [sensor_params]+\ncam0, , camera, SIMPLE_PINHOLE, 640, 480, 500, 320, 240\n')
+    if kind == 'obs_only':
+        os.makedirs(os.path.join(other, 'reconstruction'))
+        with open(os.path.join(other, 'sensors', 'records_camera.txt'), 'w') as f:
+            f.write('# kapture format: 1.1\n# timestamp, device_id, image_path\n0, cam0, a.jpg\n')
+        with open(os.path.join(other, 'reconstruction', 'points3d.txt'), 'w') as f:
+            f.write('# kapture format: 1.1\n# X, Y, Z\n0.0,0.0,0.0\n')
+        with open(os.path.join(other, 'reconstruction', 'observations.txt'), 'w') as f:
+            f.write('# kapture format: 1.1\n# point3d_id, keypoints_type, [image_path, feature_id]*\n0, sift, a.jpg, 0\n')
+    try:
+        kapture_from_dir(other)
+    except Exception:
+        pass          # refused (AssertionError on the unchanged tree): fine, it is the NEXT load that is judged
 
 
 # ---------------------------------------------------------------------------------------------------- tokens for the model
